@@ -88,7 +88,7 @@ def c05(A, ctx, tier):
 def c17(A, ctx, tier):
     history.r_hist(A, ctx, dict(exempt={"LBFGS"}, floor=12))
     control.r_retstop(A, ctx, dict(floor=6))
-    control.r_gradpoint(A, ctx, dict(floor=15))
+    control.r_gradpoint(A, ctx, dict(floor=12))
     history.r_niter(A, ctx, dict(floor=3))
     control.r_zero(A, ctx, dict(exempt={}, floor=7), rule="R-ZERO-BOUND", want="bound")
     return dict(explanation="diagnostics: one history entry per completed outer "
